@@ -327,3 +327,9 @@ Inductive hreach : hlcd -> Prop :=
 | hr_animate l sty row text speed loop l' ev :
     hreach l -> hanimate l sty row text speed loop = Some (l', ev) -> hreach l'
 | hr_tick l now l' ev : hreach l -> htick l now = Some (l', ev) -> hreach l'.
+
+(* what a host step does to the buffer: nothing, or the animation's row is replaced by a frame *)
+Definition hframe_drawn (cols row : Z) (buf : buffer) (ev : list hev) (buf' : buffer) : Prop :=
+  (ev = [] /\ buf' = buf) \/
+  exists fr pre, zlen fr = cols /\ ev = pre ++ [HRow row fr] /\ buf' = set_row row fr buf.
+
